@@ -227,10 +227,39 @@ func vScenarioC01(rc *runCtx) {
 	src := filepath.Join(rc.dir, "src")
 	dst := filepath.Join(rc.dir, "dst")
 	os.MkdirAll(dst, 0755)
+	if cfg.protocol == 1 && cfg.binary && tp.Bool("c01.v1buf", 600) {
+		// protocol 1 cuts raw chunks up to the buffer size and escapes them afterwards
+		cfg.bufSize = []string{"16K", "10K", "64K"}[tp.Draw("c01.v1bufsz", 3)]
+	}
 	spec := vGenSources(rc, src, 4, cfg.dirMode, maxSize, !cfg.overwrite)
+	// the destination is not always empty: older versions of the same names (shorter, longer, a
+	// prefix, different), which -y replaces and a plain transfer steps around
+	if tp.Bool("c01.prior", 300) {
+		for _, p := range spec.paths {
+			st, err := os.Stat(p)
+			if err != nil || st.IsDir() {
+				continue
+			}
+			b, _ := os.ReadFile(p)
+			var old []byte
+			switch tp.Draw("c01.priorkind", 4) {
+			case 0:
+				old = append(append([]byte{}, b...), []byte("stale tail of a longer old file")...)
+			case 1:
+				old = append([]byte{}, b[:len(b)/2]...)
+			case 2:
+				old = []byte("completely different old content")
+			default:
+				old = append(append([]byte{}, b...), tp.Bytes("c01.priortail", 1+tp.Draw("c01.priorlen", 5000))...)
+			}
+			vTryWrite(filepath.Join(dst, filepath.Base(p)), old)
+		}
+		rc.res.Scenario["prior_destination"] = true
+	}
 	o := cfg.opts()
 	o.srcPaths = spec.paths
 	o.dstDir = dst
+	o.kHash = []int64{0, 1024, 4096}[tp.Draw("c01.khash", 3)]
 	o.profile = vDrawProfile(tp, cfg.timeout)
 	if cfg.upload && !cfg.fork && tp.Bool("c01.dragupload", 250) {
 		o.uploadVia = 1 + tp.Draw("c01.uploadvia", 2)
@@ -365,7 +394,7 @@ func vCheckFidelity(rc *runCtx, x *xferWorld, rep *xferReport, before vSnap, req
 			return
 		}
 		seen[n] = true
-		if err := vCompareTree(sp, o.dstDir, n); err != nil {
+		if err := vCompareTreeEx(sp, o.dstDir, n, before); err != nil {
 			rc.violate("content", "C01:content", "%v (config %s)", err, rc.res.Scenario["config"])
 			return
 		}
